@@ -14,13 +14,18 @@
    in timefmt-go, outside /repo), [paths] == [path(..)] without the root (that IS the builtin.jq
    definition of paths). *)
 From Coq Require Import List ZArith NArith Bool.
-From Verif Require Import c13.Utf8 c13.Utf8Proofs c13.Codec c13.CodecProofs c13.Jv c13.JvProofs c13.Time c13.TimeProofs.
+From Verif Require Import c13.Utf8 c13.Utf8Proofs c13.Utf8Valid c13.Codec c13.CodecProofs c13.Jv c13.JvProofs c13.Time c13.TimeProofs.
 Import ListNotations.
 
 (* explode | implode on every well-formed UTF-8 string (the strings of the JSON data model) *)
 Theorem C13_explode_implode : forall s, valid_utf8 s -> implode (map Z.of_N (explode s)) = s.
 Proof. exact explode_implode. Qed.
 Print Assumptions C13_explode_implode.
+
+(* [valid_utf8] is decidable by the executable test [validb] (utf8.ValidString: no decoding step errs) *)
+Theorem C13_validb_spec : forall s, validb s = true <-> valid_utf8 s.
+Proof. exact validb_spec. Qed.
+Print Assumptions C13_validb_spec.
 
 (* and the other way round on every list of Unicode scalar values *)
 Theorem C13_implode_explode : forall cs, Forall scalar cs -> explode (implode (map Z.of_N cs)) = cs.
